@@ -12,7 +12,7 @@ CONSTANTS
   SymTargets = {"out", "f"}
   RootIgnore = {1, 2, 3, 4, 7}
   DirIgnore = {3, 5, 6}
-  TreeIds = {1, 2, 3, 4, 5, 6, 7, 8, 9, 10}
+  TreeIds = {1, 2, 3, 4, 5, 6, 7, 8, 9, 10, 11, 12, 13}
   SparseIds = {1, 2, 3, 4, 5, 6}
   XP = "ignore"
   Strict = FALSE
